@@ -100,6 +100,8 @@ func NewRun(id, tier, replay string) *Run {
 		// a runaway case must kill its worker ("out of memory" crash), not the machine
 		lim := uint64(WorkerMemoryLimit)
 		syscall.Setrlimit(syscall.RLIMIT_AS, &syscall.Rlimit{Cur: lim, Max: lim})
+		// the usual descriptor limit: include cycles of the code under test end when it is reached
+		syscall.Setrlimit(syscall.RLIMIT_NOFILE, &syscall.Rlimit{Cur: 1024, Max: 1024})
 		go r.watchdog()
 	}
 	return r
